@@ -440,11 +440,11 @@ class Mitochondria:
         More complex than glycolysis - like the Krebs cycle in
         the mitochondrial matrix.
         """
-        # Normalize Python boolean literals
-        expression = expression.replace('True', '1').replace('False', '0')
-        expression = expression.replace('true', '1').replace('false', '0')
-
         tree = ast.parse(expression, mode='eval')
+        # Normalize lowercase boolean literals on the AST, never inside strings
+        for name in ast.walk(tree):
+            if isinstance(name, ast.Name) and name.id in ('true', 'false'):
+                name.id = 'True' if name.id == 'true' else 'False'
         return bool(self._compute_node(tree.body))
 
     def _oxidative_phosphorylation(self, expression: str) -> Any:
@@ -563,6 +563,8 @@ class Mitochondria:
         elif isinstance(node, ast.Name):
             if node.id in self.SAFE_FUNCTIONS:
                 return self.SAFE_FUNCTIONS[node.id]
+            if node.id in ('True', 'False'):
+                return node.id == 'True'
             raise ValueError(f"Unknown variable: {node.id}")
 
         # Lists
